@@ -282,14 +282,14 @@ def run_case(scn, ctx):
         A = {f for f in sealed_files if f in now_files and now_files[f] != sealed_files[f]}
         M = {f for f in sealed_files if f not in now_files} | {d for d in sealed_dirs if d not in now_dirs}
         N = {f for f in now_files if f not in sealed_files}
-        tslash = target + ("/" if scn.get("slash") else "")
-        if scn.get("slash"):
-            ctx.event("trailing_slash_root")
+        spell = "slash" if scn.get("slash") else scn.get("spell", "abs")
+        if spell != "abs":
+            ctx.event("trailing_slash_root" if spell == "slash" else "root_spelled_" + spell)
         for cmd in ("verify", "diff", "create"):
             if cmd == "create":
-                res = w.create(tslash, formats=scn["steps"][-1]["formats"])
+                res = w.create(target, formats=scn["steps"][-1]["formats"], spell=spell)
             else:
-                res = getattr(w, cmd)(tslash)
+                res = getattr(w, cmd)(target, spell=spell)
             check_outputs(cmd, res, target, A, M, N, ctx)
         if A:
             ctx.event("altered")
